@@ -3,8 +3,10 @@ import Cell2v.Model.Codec
 /-!
 Model driver for C06.  `modeld_c06 model` : one op line in, one observation out.
 `modeld_c06 spec`  : lines `op\tobs` in, `ok` or `VIOLATION <signature> <why>` out —
-the property predicate itself (round trip / no crash), applied to observations
-recorded from the implementation, independent of the model's internals.
+the property predicate itself (round trip / no crash / earlier decode results
+unchanged / the process survives a session's Data packet), applied to observations
+recorded from the implementation, independent of the model's internals (it keeps
+the implementation's own earlier `pdecs` answers and the staged `sess` op).
 -/
 namespace Cell2v.Driver.C06
 open Cell2v.Driver Cell2v.Codec
